@@ -9,6 +9,11 @@ import (
 // Locker mirrors sync.Locker.
 type Locker = realsync.Locker
 
+// Pool and Map never block: the real ones serve (a Pool's contents are per-P and therefore not a
+// source of schedule-dependent behaviour under the cooperative scheduler, which runs one thread at a time).
+type Pool = realsync.Pool
+type Map = realsync.Map
+
 // Mutex is a drop-in for sync.Mutex.
 type Mutex struct {
 	real  realsync.Mutex
@@ -367,7 +372,6 @@ func Access(p unsafe.Pointer, write bool, site string) {
 		l.reads[t.id] = me
 	}
 }
-
 
 // post is the optional scheduling point after an operation (PostYield).
 func (s *Sched) post(t *thread, what string) {
